@@ -245,6 +245,21 @@ func (g *Gen) scanStream() {
 	e := Ev{"op": "ScanStream", "s": ints([]byte(sb.String())), "k": k}
 	e.setDec("prev", mk(false, big.NewInt(777), -3))
 	g.emit(e)
+	// the same stream read through a reader that fails with an I/O error at a drawn position (ASCII streams only: the
+	// position is a byte count)
+	if s := sb.String(); len(s) > 0 && g.r.Intn(3) == 0 {
+		ascii := true
+		for i := 0; i < len(s); i++ {
+			if s[i] >= 0x80 {
+				ascii = false
+			}
+		}
+		if ascii {
+			e2 := Ev{"op": "ScanStream", "s": ints([]byte(s)), "k": k, "failat": g.r.Intn(len(s) + 1)}
+			e2.setDec("prev", mk(false, big.NewInt(777), -3))
+			g.emit(e2)
+		}
+	}
 }
 
 func (g *Gen) scanVerb() {
